@@ -27,6 +27,11 @@ Ops == IF ~mem.up THEN {} ELSE
   {[a |-> "Append", recs |-> Batch(n, CurEpoch + de, key)] :
       n \in {n \in 1..MaxBatch : nVal + n <= MaxRecs}, de \in {d \in 0..1 : CurEpoch + d <= MaxEpoch},
       key \in IF cfg.compact THEN Keys ELSE {"a"}}      \* keys only matter to compaction
+  \* a batch whose two records have different keys (compaction then meets a keyed record
+  \* and a record without a key, or two keys, in one segment)
+  \cup {[a |-> "Append", recs |-> <<[ep |-> CurEpoch, val |-> nVal + 1, key |-> k[1]],
+                                   [ep |-> CurEpoch, val |-> nVal + 2, key |-> k[2]]>>] :
+         k \in {x \in Keys \X Keys : cfg.compact /\ x[1] # x[2] /\ MaxBatch >= 2 /\ nVal + 2 <= MaxRecs}}
   \* replicated append of two records, the second one in the next leader epoch
   \cup {[a |-> "AppendSet", recs |-> <<[ep |-> CurEpoch, val |-> nVal + 1, key |-> key],
                                       [ep |-> CurEpoch + 1, val |-> nVal + 2, key |-> key]>>] :
@@ -65,9 +70,30 @@ Tags(op) ==
       sparse == \/ \E i \in 1..Len(sc0) - 1 : sc0[i + 1].off > sc0[i].off + 1
                 \/ \E j \in 1..Len(mem.segs) : mem.segs[j].first \notin {-1, mem.segs[j].base}
                 \/ ("skip" \in DOMAIN op /\ \E i \in 1..Len(op.skip) : op.skip[i] > 0)
+      \* what a compaction meets in the segments it may rewrite: a record without a key
+      \* below the HW, a superseded record, the latest committed record of a key with /
+      \* without a newer uncommitted record of the same key behind it
+      lb == Last(mem.segs).base
+      cand == {r \in RangeOf(sc0) : r.off < lb /\ r.off < mem.hw}
+      newer(r) == \E q \in RangeOf(sc0) : q.key = r.key /\ q.off > r.off
+      sits == IF op.a = "Clean" /\ cfg.compact
+              THEN (IF \E r \in cand : r.key = "nil" THEN {"nilkey"} ELSE {})
+                   \cup (IF \E r \in cand : Superseded(r, sc0, mem.hw) THEN {"superseded"} ELSE {})
+                   \cup (IF \E r \in cand : r.key # "nil" /\ ~Superseded(r, sc0, mem.hw) /\ newer(r)
+                         THEN {"latest_shadowed"} ELSE {})
+                   \cup (IF \E r \in cand : r.key # "nil" /\ ~newer(r) THEN {"latest"} ELSE {})
+              ELSE {}
   IN {<<ps[i], op.a>> : i \in 1..Len(ps)}
+     \cup {<<"compact." \o x, op.a, "sit">> : x \in sits}
      \cup (IF shrinks THEN {<<"replace.after_rename_log", op.a, "shrinks">>} ELSE {})
      \cup (IF sparse THEN {<<ps[i], op.a, "sparse">> : i \in 1..Len(ps)} ELSE {})
+
+\* age retention: a segment in front of the last one holds expired and unexpired records
+\* (what a reopened log remembers about its write times decides the next clean)
+Straddle(f, m) ==
+  cfg.age > 0 /\ m.up /\ \E j \in 1..Len(m.segs) - 1 :
+     LET rs == {r \in RangeOf(ScanOf(f, m)) : r.off >= m.segs[j].base /\ r.off < m.segs[j + 1].base} IN
+     (\E r \in rs : r.val < cfg.age) /\ (\E r \in rs : r.val >= cfg.age)
 
 Snapshot(op, p) == [sc |-> Sc, nw |-> NewestOf(mem), lastBase |-> Last(mem.segs).base, hw |-> mem.hw, op |-> op, p |-> p]
 
@@ -85,7 +111,9 @@ MCOp(op) ==
   /\ phase = "pre" /\ nOps < MaxOps
   /\ DoOp(op)
   /\ last' = op /\ nOps' = nOps + 1 /\ nVal' = nVal + Count(op) /\ hist' = Append(hist, op)
-  /\ pts' = IF GenMode THEN pts \cup Tags(op) ELSE pts
+  /\ pts' = IF GenMode
+            THEN pts \cup Tags(op) \cup (IF Straddle(fs', mem') THEN {<<"age.straddle", op.a, "sit">>} ELSE {})
+            ELSE pts
   /\ UNCHANGED <<phase, pre, nPost, nRec>>
 
 MCCrash(op, p, n) ==
